@@ -1577,3 +1577,74 @@ def _c08(fb, rep):
 
 
 RULES['C08'] = _c08
+
+
+# ================================================================================================ eleventh batch (F141, F142)
+def c13c(fb, rep):
+    """R13.19: the floating-point MPS reader converts a value field only through MPSreadValue() (complete, finite decimal number or syntax error): no
+    atof / atoi / strtod call in the MPSread* functions themselves.  (F141)"""
+    rep.rule('R13.19', 'MPS reader (floating-point): value fields are converted by MPSreadValue(), never by atof()', floor=6)
+    k = 0
+    for f in sorted(fb.funcs.values(), key=lambda g: (g.file, g.line)):
+        if not f.nodes or not f.file.endswith('spxlpbase_real.hpp') or not (f.short or '').startswith('MPSread') or f.short == 'MPSreadValue':
+            continue
+        for n in f.nodes:
+            if n.k == 'CallExpr' and n.short in ('atof', 'atoi', 'atol', 'strtod', 'strtol', 'stod', 'stoi', 'MPSreadValue'):
+                k += 1
+                rep.check(n.short == 'MPSreadValue', 'R13.19', '%s|%s#%d' % (f.short, n.short, k), '%s:%d' % (f.file, n.l), 'checked conversion',
+                          '%s(%s) accepts "nan", "inf", "abc" (0) and "1/3" (1) without an error: readFile() returns true and the LP holds NaN / infinity / another number' %
+                          (n.short, render(n.args()[0])[:30] if n.args() else ''))
+    if k < 6:
+        raise AnalysisBroken('R13.19: only %d value conversions found in the MPS reader' % k)
+    h = [f for f in fb.funcs.values() if f.nodes and f.short == 'MPSreadValue']
+    if not h:
+        raise AnalysisBroken('R13.19: MPSreadValue not found')
+    txt = ' '.join(render(n) for n in h[0].nodes if n.k in ('BinaryOperator', 'CallExpr', 'UnaryOperator'))
+    rep.check('isfinite' in txt and re.search(r'\*end != |end\[0\] != ', txt) is not None, 'R13.19', 'MPSreadValue|complete and finite', h[0].where(), 'end of token and finiteness tested',
+              'MPSreadValue() does not test that the whole field was consumed and that the result is finite')
+
+
+_c13c0 = RULES['C13']
+
+
+def _c13y(fb, rep):
+    _c13c0(fb, rep)
+    c13c(fb, rep)
+
+
+RULES['C13'] = _c13y
+
+
+def c08b(fb, rep):
+    """R08.15: a post step stores "this reduction tightened the lower / upper bound" (m_strictLo / m_strictUp) for one purpose: to decide in execute() whether
+    a bound the variable sits on is one the reduction itself supplied.  Every PostStep class that has these members reads both of them in execute().  (F142)"""
+    rep.rule('R08.15', 'SPxMainSM post steps: the stored m_strictLo / m_strictUp are read by execute()', floor=4)
+    k = 0
+    for K, c in sorted(fb.classes.items()):
+        if not K.startswith('soplex::SPxMainSM<double>::'):
+            continue
+        fl = [x['n'] for x in c['fields'] if x['n'] in ('m_strictLo', 'm_strictUp')]
+        if not fl:
+            continue
+        ex = [f for f in fb.methods_of(K) if f.short == 'execute' and f.nodes]
+        if not ex:
+            continue
+        for m in fl:
+            k += 1
+            rd = [n for n in ex[0].nodes if n.k == 'MemberExpr' and n.short == m]
+            rep.check(bool(rd), 'R08.15', '%s|%s' % (K.split('::')[-1], m), ex[0].where(), 'read in execute()',
+                      '%s stores %s and execute() never reads it: the step cannot tell a bound it supplied itself from one produced by another reduction (a row that supplies the '
+                      'binding bound is called redundant; OPTIMAL with a wrong dual solution through optimize())' % (K.split('::')[-1], m))
+    if k < 4:
+        raise AnalysisBroken('R08.15: only %d m_strict* members found' % k)
+
+
+_c08b0 = RULES['C08']
+
+
+def _c08x(fb, rep):
+    _c08b0(fb, rep)
+    c08b(fb, rep)
+
+
+RULES['C08'] = _c08x
